@@ -15,7 +15,7 @@ Inductive ires := IOk (b : bytes) | IErr | IPanic.
 Inductive vres := VOk (v : value) | VErr | VPanic | VNone.
 
 Inductive case :=
-| CRt (P : pool) (ty : nat) (lossy : bool) (unordered : bool) (v : value) (enc : ires) (dec : vres)
+| CRt (P : pool) (ty : nat) (lossy : bool) (unordered : bool) (gen_shaped : bool) (v : value) (enc : ires) (dec : vres)
 | CDec (P : pool) (ty : nat) (b : bytes) (dec : vres).
 
 Definition vres_agrees (m : pres value) (i : vres) : bool :=
@@ -34,7 +34,7 @@ Definition pres_value_eqb (a b : pres value) : bool :=
 
 Definition check (c : case) : bool :=
   match c with
-  | CRt P ty lossy unordered v enc dec =>
+  | CRt P ty lossy unordered _ v enc dec =>
       let d := get_msg P ty in
       match encode_proto P lossy d v with
       | PUnmodelled => true
@@ -54,18 +54,19 @@ Definition check (c : case) : bool :=
 
 Definition oracle (c : case) : bool :=
   match c with
-  | CRt P ty lossy unordered v enc dec =>
+  | CRt P ty lossy unordered gen_shaped v enc dec =>
       let d := get_msg P ty in
       if shaped P d v
       then match dec with VOk y => value_eqb y (strip_defaults P d v) | _ => false end
-      else match enc, dec with IPanic, _ | _, VPanic => false | _, _ => true end
+      else negb gen_shaped        (* a value the generator built as message-shaped must be `shaped` *)
+           && match enc, dec with IPanic, _ | _, VPanic => false | _, _ => true end
   | CDec _ _ _ dec => match dec with VPanic => false | _ => true end
   end.
 
 (* what the model says, for replay files: (encoding, its parse, shaped?, strip_defaults) *)
 Definition model_out (c : case) :=
   match c with
-  | CRt P ty lossy _ v enc dec =>
+  | CRt P ty lossy _ _ v enc dec =>
       let d := get_msg P ty in
       let e := encode_proto P lossy d v in
       (e, match enc with IOk ib => parse_proto P d ib | _ => PErr end, shaped P d v, strip_defaults P d v)
